@@ -46,7 +46,7 @@ def generator(prefix):
 
 
 def search(prop, ob, failure, repo="/repo"):
-    labels = list(ob.get("labels") or []) + [ob["id"].split("@")[0]]
+    labels = list(ob.get("labels") or []) + [ob["id"].split("@")[0], ob["id"]]
     for prefix, fn in GENERATORS:
         if any(l.startswith(prefix) for l in labels):
             w = fn(repo, ob, failure)
@@ -183,4 +183,90 @@ def _forward_ref(repo, ob, failure):
         if (ra["rc"] == 0) != (rb["rc"] == 0):
             return {"input": a, "input_permuted": b, "observed": "one order fails (rc %s) the other succeeds (rc %s)" % (ra["rc"], rb["rc"]),
                     "expected": "same outcome in both orders"}
+    return None
+
+
+def _parse_xml(s):
+    import xml.etree.ElementTree as ET
+    try:
+        return ET.fromstring(s), None
+    except ET.ParseError as e:
+        return None, str(e)
+
+
+def _infoset(el):
+    return (el.tag, sorted(el.attrib.items()), (el.text or ""), [(_infoset(c), c.tail or "") for c in el])
+
+
+@generator("panic_free@From<InputEvent>")
+@generator("panic_free@InputEvent")
+@generator("C01.events.")
+def _utf8_panic(repo, ob, failure):
+    ns = b'<svg xmlns="http://www.w3.org/2000/svg">'
+    docs = [
+        ns + b'<!-- \xff --></svg>',
+        ns + b'<style><![CDATA[ \xff ]]></style></svg>',
+        ns + b'<text>\xff</text></svg>',
+        ns + b'<\xff></\xff></svg>',
+        b'<svg><!-- \xff --><rect wh="3"/></svg>',
+        b'<svg><text xy="1"><![CDATA[\xfe]]></text></svg>',
+        b'<svg><\xff wh="3"/></svg>',
+    ]
+    for doc in docs:
+        r = run_svgdx(repo, doc)
+        if r["timeout"] or r["rc"] not in (0, 1, 2) or "panicked" in r["err"]:
+            return {"input": repr(doc), "observed": "exit %s: %s" % (r["rc"], r["err"].strip()[-300:]), "expected": "SVG or an error value, never a panic"}
+    return None
+
+
+@generator("C02.attr.escaped")
+def _attr_escape(repo, ob, failure):
+    docs = ['<svg><rect wh="5" data-a="x &lt; y"/></svg>', '<svg><rect wh="5" data-a="a &amp; b"/></svg>', '<svg><rect wh="5" data-a="say &quot;hi&quot;"/></svg>',
+            '<svg><rect wh="5" class="a&lt;b"/></svg>', '<svg xmlns="http://www.w3.org/2000/svg"><rect data-a="x &lt; y"/></svg>']
+    for doc in docs:
+        r = run_svgdx(repo, doc)
+        if r["rc"] != 0:
+            continue
+        tree, err = _parse_xml(r["out"])
+        if tree is None:
+            return {"input": doc, "observed": "output is not well-formed XML: %s" % err, "output_excerpt": r["out"][-300:], "expected": "attribute value escaped"}
+    return None
+
+
+@generator("C03.")
+def _real_svg_infoset(repo, ob, failure):
+    docs = ['<svg xmlns="http://www.w3.org/2000/svg"><text>a &amp; b &lt; c</text></svg>',
+            '<svg xmlns="http://www.w3.org/2000/svg"><text>say &quot;hi&quot;</text><rect data-a="x &lt; y"/></svg>',
+            '<svg xmlns="http://www.w3.org/2000/svg"><!-- c --><style><![CDATA[ a > b ]]></style><g><text>t</text></g></svg>',
+            '<svg><svg xmlns="http://www.w3.org/2000/svg"><text>a &amp; b</text></svg><rect wh="2"/></svg>']
+    for doc in docs:
+        r = run_svgdx(repo, doc)
+        if r["rc"] != 0:
+            return {"input": doc, "observed": "real SVG rejected: %s" % r["err"][-200:], "expected": "identical infoset"}
+        a, _ = _parse_xml(doc)
+        b, err = _parse_xml(r["out"])
+        if b is None:
+            return {"input": doc, "observed": "output not well-formed: %s" % err, "expected": "identical infoset"}
+        if doc.startswith('<svg xmlns') and _infoset(a) != _infoset(b):
+            return {"input": doc, "observed": "infoset differs: %r vs %r" % (_infoset(a), _infoset(b)), "expected": "identical infoset"}
+        if not doc.startswith('<svg xmlns'):
+            ia = [_infoset(c) for c in a if c.tag.endswith('svg')]
+            ib = [_infoset(c) for c in b.iter() if c.tag.endswith('svg') and c is not b]
+            if ia and ia[0] not in ib:
+                return {"input": doc, "observed": "nested svg infoset differs: %r vs %r" % (ia, ib), "expected": "identical infoset of the nested svg"}
+    return None
+
+
+@generator("C19.content.decoded")
+def _content_text(repo, ob, failure):
+    for doc, want in (('<svg><text xy="1">a &amp; b</text></svg>', "a & b"), ('<svg><rect wh="9">x &lt; y</rect></svg>', "x < y")):
+        r = run_svgdx(repo, doc)
+        if r["rc"] != 0:
+            continue
+        tree, err = _parse_xml(r["out"])
+        if tree is None:
+            return {"input": doc, "observed": "output not well-formed: " + err, "expected": want}
+        texts = ["".join(t.itertext()) for t in tree.iter() if t.tag.endswith("text")]
+        if want not in texts:
+            return {"input": doc, "observed": "character data of generated text: %r" % texts, "expected": repr(want)}
     return None
